@@ -94,10 +94,34 @@ def _rxyz(e):
     return O.rotx(e[0]) @ O.roty(e[1]) @ O.rotz(e[2])
 
 
+_HANDED = [False]      # set by the operation that hands the library an exact half turn itself (not a derived result)
+
+
 def _near_pi(R):
     if R[0, 0] + R[1, 1] + R[2, 2] > -0.99:
         return False
+    if _HANDED[0] and _exact_half_turn(R):
+        return False
     return PI - O.angle(R) < NEAR_PI
+
+
+def _exact_half_turn(R):
+    """An exact half turn whose entries are all -1, 0 or 1 (about a coordinate axis, or about a face diagonal such as
+    (1,1,0)/sqrt2 - the UR arms' tool frames) HANDED to the library as such (4x4 matrix, sTM, axis quaternion): the
+    matrix it takes the logarithm of is this very matrix, its trace is exactly -1, so the exact-half-turn branch is
+    taken, which is accurate (C01 enforces that branch too).  Not part of the open near-pi finding, hence not
+    skipped.  A half turn that the library COMPUTES (a product, an inverse) carries rounding in its entries, may take
+    the generic branch, and stays under the near-pi rule."""
+    R = np.asarray(R, dtype=float)
+    return bool(np.all((R == 0.0) | (R == 1.0) | (R == -1.0)) and R[0, 0] + R[1, 1] + R[2, 2] == -1.0
+                and np.array_equal(R, R.T) and abs(_det3(R) - 1.0) < 1e-12)
+
+
+# exact half turns: rotation blocks and the matching (x, y, z, w) quaternions of the three coordinate-axis ones
+_HALF_R = [np.diag([1.0, -1.0, -1.0]), np.diag([-1.0, 1.0, -1.0]), np.diag([-1.0, -1.0, 1.0]),
+           np.array([[0.0, 1, 0], [1, 0, 0], [0, 0, -1]]), np.array([[0.0, 0, 1], [0, -1, 0], [1, 0, 0]]),
+           np.array([[-1.0, 0, 0], [0, 0, 1], [0, 1, 0]])]
+_HALF_Q = [np.array([1.0, 0, 0, 0]), np.array([0.0, 1, 0, 0]), np.array([0.0, 0, 1, 0])]
 
 
 def _pn(x):
@@ -316,6 +340,7 @@ def _step(S, op, what):
     tm, fsr = L["tm"], L["fsr"]
     name = op["op"]
     vec, mat = "vec", "mat"
+    _HANDED[0] = False
 
     # ---- constructors
     if name == "c_default":
@@ -358,6 +383,9 @@ def _step(S, op, what):
     if name in ("c_quat_list", "c_quat_arr"):
         v = _f6(op["v"])
         q = _quat(v[3:], op["s"])
+        if op.get("half") is not None:
+            q = _HALF_Q[int(op["half"]) % 3] * (1.0 if float(op["s"]) > 0 else -1.0)   # unit length exactly
+            S.ctx.label("exact half turn written"); _HANDED[0] = True
         arg = np.concatenate([v[:3], q])
         arg = [float(x) for x in arg] if name == "c_quat_list" else arg
         return _new(S, sut(tm, arg)), (mat, O.rp(O.quat_to_R(q), v[:3]), [])
@@ -371,6 +399,9 @@ def _step(S, op, what):
         return _new(S, sut(tm, arg, True)), (mat, O.rp(_rxyz(v[3:]), v[:3]), [])
     if name == "c_mat":
         T = np.ascontiguousarray(_pose(_f6(op["v"])))
+        if op.get("half") is not None:
+            T[:3, :3] = _HALF_R[int(op["half"]) % 6]
+            S.ctx.label("exact half turn written"); _HANDED[0] = True
         return _new(S, sut(tm, T.copy())), (mat, T, [])
     if name == "c_tm":
         src = S.pick(op["b"])
@@ -394,6 +425,9 @@ def _step(S, op, what):
     # ---- setters (in place)
     if name == "sTM":
         T = np.ascontiguousarray(_pose(_f6(op["v"])))
+        if op.get("half") is not None:
+            T[:3, :3] = _HALF_R[int(op["half"]) % 6]
+            S.ctx.label("exact half turn written"); _HANDED[0] = True
         sut(a.t.sTM, T.copy())
         return a, (mat, T, [])
     if name == "sTM_from":
@@ -408,6 +442,14 @@ def _step(S, op, what):
         return a, (vec, b.v, [])
     if name in ("set", "setitem"):
         i, x = int(op["i"]) % 6, float(op["x"])
+        if op.get("rel") is not None:
+            # a NUDGE of the stored value (a servo trimming a coordinate by parts in 1e8..1e4): what is written is what
+            # is read back and what the matrix shows, however small the change
+            if abs(float(a.v[i])) < 0.5 and float(np.abs(a.v).max()) >= 0.5:
+                i = int(np.abs(a.v[3:]).argmax()) + 3 if float(np.abs(a.v[3:]).max()) >= 0.5 else int(np.abs(a.v).argmax())
+            cur = float(a.v[i])
+            x = cur * (1.0 + float(op["rel"])) if cur != 0.0 else float(op["rel"])
+            S.ctx.label("entry nudged by a small relative amount")
         v = a.v.copy()
         v[i] = x
         # the same entry addressed NumPy-style from the end (t[-1] is the z rotation component)
@@ -430,6 +472,9 @@ def _step(S, op, what):
         return a, (vec, v, [pa])
     if name == "setQuat":
         q = _quat(np.array(op["w"], dtype=float), op["s"])
+        if op.get("half") is not None:
+            q = _HALF_Q[int(op["half"]) % 3] * (1.0 if float(op["s"]) > 0 else -1.0)   # unit length exactly
+            S.ctx.label("exact half turn written"); _HANDED[0] = True
         sut(a.t.setQuat, [float(x) for x in q] if op.get("aslist") else q.copy())
         return a, (mat, O.rp(O.quat_to_R(q), a.T[:3, 3]), [pa])
     if name == "setQuat_get":
@@ -858,6 +903,8 @@ _I6 = st.integers(0, 5)
 _NEG = st.sampled_from([False, False, False, True])      # index / slice bounds written as negative numbers
 _SETNAME = st.sampled_from(["set", "setitem"])
 _WHOLE = st.sampled_from([False, False, False, True])
+_REL = st.one_of(st.none(), st.none(), st.none(), G.signed_log_uniform(1e-8, 1e-4), G.signed_log_uniform(2e-6, 1e-5))
+_HALF = st.sampled_from([None, None, None, None, None, 0, 1, 2, 3, 4, 5])
 
 
 @st.composite
@@ -871,26 +918,27 @@ def _setslice(draw):
 @st.composite
 def _setone(draw):
     i = draw(_I6)
-    return {"op": draw(_SETNAME), "a": draw(_IDX), "i": i, "x": draw(_POSC if i < 3 else _ROTC), "neg": draw(_NEG)}
+    return {"op": draw(_SETNAME), "a": draw(_IDX), "i": i, "x": draw(_POSC if i < 3 else _ROTC), "neg": draw(_NEG),
+            "rel": draw(_REL)}
 
 
 def _constructors():
     return st.one_of(
         _fd("c_list6", v=_v6(), whole=_WHOLE), _fd("c_arr6", v=_v6(), whole=_WHOLE), _fd("c_arr61", v=_v6(), whole=_WHOLE),
         _fd("c_list3", w=_w3(), whole=_WHOLE), _fd("c_arr3", w=_w3(), whole=_WHOLE), _fd("c_arr31", w=_w3(), whole=_WHOLE),
-        _fd("c_quat_list", v=_v6(), s=_QS), _fd("c_quat_arr", v=_v6(), s=_QS),
+        _fd("c_quat_list", v=_v6(), s=_QS, half=_HALF), _fd("c_quat_arr", v=_v6(), s=_QS, half=_HALF),
         _fd("c_rpy_list3", e=_w3()), _fd("c_rpy_arr3", e=_w3()),
         _fd("c_rpy_list6", v=_v6()), _fd("c_rpy_arr6", v=_v6()),
-        _fd("c_mat", v=_v6()), _fd("c_tm", b=_IDX), _fd("c_arr_of_tm", b=_IDX), _fd("c_default"),
+        _fd("c_mat", v=_v6(), half=_HALF), _fd("c_tm", b=_IDX), _fd("c_arr_of_tm", b=_IDX), _fd("c_default"),
         _fd("c_arr6_again", b=_IDX, v=_v6()), _fd("c_from_slice", b=_IDX))
 
 
 def _setters():
     return st.one_of(
-        _fd("sTM", a=_IDX, v=_v6()), _fd("sTM_from", a=_IDX, b=_IDX),
+        _fd("sTM", a=_IDX, v=_v6(), half=_HALF), _fd("sTM_from", a=_IDX, b=_IDX),
         _fd("sTAA", a=_IDX, v=_v6(), shape=_SHAPE), _fd("sTAA_from", a=_IDX, b=_IDX),
         _setone(), _setone(), _setslice(), _setslice(),
-        _fd("setQuat", a=_IDX, w=_w3(), s=_QS, aslist=st.booleans()), _fd("setQuat_get", a=_IDX, b=_IDX),
+        _fd("setQuat", a=_IDX, w=_w3(), s=_QS, aslist=st.booleans(), half=_HALF), _fd("setQuat_get", a=_IDX, b=_IDX),
         _fd("angleMod", a=_IDX), _fd("angleMod_fsr", a=_IDX))
 
 
